@@ -68,6 +68,8 @@ func main() {
 			os.Exit(2)
 		}
 	}
+	mon.InitAutoDict(os.Getenv("VERIF_MXJ_SRC"))
+	mon.AutoDictEvidence(c)
 	mon.AssertDefaults(c, "process start")
 
 	run := func(i int) {
